@@ -58,11 +58,18 @@ def run_one(pid, m, repo):
             if os.path.isdir(os.path.join(repo, sub)):
                 shutil.copytree(os.path.join(repo, sub), os.path.join(tmp, sub),
                                 ignore=shutil.ignore_patterns("__pycache__"))
-        edits = m["edits"] if "edits" in m else [m]
-        for ed in edits:
-            err = apply_edit(tmp, ed)
-            if err:
-                return m, "stale", err
+        if "patch" in m:
+            p0 = subprocess.run(["git", "apply", "--unsafe-paths", f"--directory={tmp}", m["patch"]], cwd="/", capture_output=True, text=True)
+            if p0.returncode != 0:
+                p0 = subprocess.run(["git", "apply", m["patch"]], cwd=tmp, capture_output=True, text=True)
+            if p0.returncode != 0:
+                return m, "stale", "patch does not apply: " + (p0.stderr or "")[:200].replace("\n", " | ")
+        else:
+            edits = m["edits"] if "edits" in m else [m]
+            for ed in edits:
+                err = apply_edit(tmp, ed)
+                if err:
+                    return m, "stale", err
         env = dict(os.environ, TTSA_REPO=tmp, TTSA_EVIDENCE_DIR=os.path.join(tmp, "_ev"), PYTHONPATH=VERIF)
         env.pop("VERIF_TIER", None)
         p = subprocess.run([sys.executable, "-m", "ttsa", "check", pid, "--tier", "quick"], cwd=VERIF, env=env,
@@ -91,6 +98,31 @@ def run_one(pid, m, repo):
         shutil.rmtree(tmp, ignore_errors=True)
 
 
+def load_seeds(pid):
+    """confirmed seeded changes (sub-agent campaign) with the verdict recorded for this property"""
+    import json
+    out = []
+    root = os.path.join(VERIF, "seeded")
+    if not os.path.isdir(root):
+        return out
+    for d in sorted(os.listdir(root)):
+        mp = os.path.join(root, d, "meta.json")
+        if not os.path.exists(mp):
+            continue
+        try:
+            meta = json.load(open(mp))
+        except ValueError:
+            continue
+        sc = meta.get("static_checks", {})
+        if pid in sc.get("violation_reported_by", []):
+            out.append(dict(name=f"seed:{d}", patch=os.path.join(root, d, "patch.diff"), expect="violation"))
+        elif pid in [x for k, v in sc.items() if k.startswith("analysis_error_only") for x in v]:
+            out.append(dict(name=f"seed:{d}", patch=os.path.join(root, d, "patch.diff"), expect="error"))
+        elif meta.get("property") == pid:
+            out.append(dict(name=f"seed:{d}", patch=os.path.join(root, d, "patch.diff"), expect="clean"))     # recorded miss: must at least not crash
+    return out
+
+
 def run(pids, jobs=16, reduced=False):
     repo = os.environ.get("TTSA_REPO", "/repo")
     pids = pids or ALL
@@ -99,6 +131,8 @@ def run(pids, jobs=16, reduced=False):
         ms = load(pid)
         if reduced:
             ms = [m for m in ms if m.get("reduced")] or ms[:2]
+        else:
+            ms = ms + load_seeds(pid)
         work += [(pid, m) for m in ms]
     if not work:
         print("[ttsa selftest] no mutants registered for", ",".join(pids))
